@@ -119,3 +119,28 @@ def compare(cases, exe=None, sw=None, ssw=None, shard=24, impl=None):
                 else:
                     r["first_diff"] = dict(line=min(len(il), len(ml)), impl=f"{len(il)} lines", model=f"{len(ml)} lines")
     return results
+
+
+def wf_probe(cases, impl, sw=None, ssw=None, shard=6):
+    """model only: for every case the string of `wf_world_b at_save_point` bit pairs after each op
+    (are the hypotheses of the round-trip theorems met on the states the histories reach?)"""
+    sw = sw or engine.current_switches()
+    if ssw is None:
+        ssw, _ = current_save_switches()
+    exprs, idx = [], []
+    for i, (c, r) in enumerate(zip(cases, impl)):
+        if r.get("crash") is not None or r.get("out_of_fuel") or not supported(c) or r.get("load") != "ok":
+            continue
+        try:
+            sj = json.loads(r.get("json") or (open(c["story_file"]).read() if "story_file" in c else c.get("story", "null")))
+        except Exception:
+            continue
+        ops = "[" + ";".join(op_term2(o) for o in c.get("script", [])) + "]"
+        exprs.append(f"wf_trace {engine.switches_term(sw)} {engine.oracle_term(r)} ssite_panics {save_switches_term(ssw)} "
+                     f"{vlib.json2coq(sj)} ({int(c.get('seed', 42))})%Z {int(c.get('fuel', 100000))}%N {ops}")
+        idx.append(i)
+    outs = vlib.coq_eval_sharded(PRE, exprs, shard=shard, name="engwf") if exprs else []
+    res = [None] * len(cases)
+    for i, o in zip(idx, outs):
+        res[i] = o.split(" ") if o else []
+    return res
